@@ -336,6 +336,31 @@ CLI = "src/sqlfluff/cli/commands.py"
 API = "src/sqlfluff/api/simple.py"
 
 VARIANTS = [
+    # behaviour-preserving refactors of the gates: must stay quiet
+    Variant(
+        "quiet-api-gate-as-early-return", API,
+        "    should_fix = True\n    if not fix_even_unparsable:\n",
+        "    should_fix = True\n    if fix_even_unparsable:\n        return result.paths[0].files[0].fix_string()[0]\n    if not fix_even_unparsable:\n",
+        "QUIET", None, "the fix_even_unparsable arm returns early with the fixed string",
+    ),
+    Variant(
+        "quiet-api-gate-count-through-local", API,
+        "        total_errors, _ = result.count_tmp_prs_errors()\n        if total_errors > 0:\n",
+        "        counts = result.count_tmp_prs_errors()\n        n_unfiltered = counts[0]\n        if n_unfiltered != 0:\n",
+        "QUIET", None, "tuple kept whole, component 0 read through a local, != 0 instead of > 0",
+    ),
+    Variant(
+        "quiet-lint-paths-gate-nested-ifs", LINTER,
+        "                    if fix_even_unparsable or num_tmp_prs_errors == 0:\n                        linted_file.persist_tree(\n                            suffix=fixed_file_suffix, formatter=self.formatter\n                        )\n",
+        "                    may_write = fix_even_unparsable or not num_tmp_prs_errors\n                    if may_write:\n                        linted_file.persist_tree(\n                            suffix=fixed_file_suffix, formatter=self.formatter\n                        )\n",
+        "QUIET", None, "gate computed into a local, zero test spelled `not n`",
+    ),
+    Variant(
+        "quiet-stdin-fixable-count-through-local", CLI,
+        "    if result.num_violations(types=SQLLintError, fixable=True) > 0:\n        stdout = result.paths[0].files[0].fix_string()[0]\n",
+        "    n_fixable = result.num_violations(types=SQLLintError, fixable=True)\n    if n_fixable > 0:\n        the_file = result.paths[0].files[0]\n        stdout = the_file.fix_string()[0]\n",
+        "QUIET", None, "fixable count and the file held in locals",
+    ),
     Variant("lint_paths-gate-dropped", LINTER,
             "                    if fix_even_unparsable or num_tmp_prs_errors == 0:\n                        linted_file.persist_tree(",
             "                    if True:\n                        linted_file.persist_tree(", "R18a", "lint_paths"),
